@@ -239,7 +239,25 @@ def make_doc(w, rng, want=None, marked=True):
             doc["granular_markings"] = gm
     if rng.random() < 0.3 and key.startswith("objects:"):
         doc["x_custom"] = {"nested": [1, {"deep": ["a"]}]}
+    if rng.random() < 0.6:
+        relax_hash_names(doc, rng)
     return key, doc
+
+
+def relax_hash_names(x, rng, top=True):
+    """hash dictionaries given with the relaxed algorithm spellings the library accepts (md5, sha256, Sha-1 ...): it writes the specification's names into ITS copy.
+    Only top-level `hashes` and those of external references: nested ones (extensions, containers) are looked up by exact name elsewhere."""
+    relaxed = {"MD5": ["md5", "Md5"], "SHA-1": ["sha1", "sha-1", "SHA1"], "SHA-256": ["sha256", "SHA256", "sha-256"], "SHA-512": ["sha512", "SHA512"], "SHA3-256": ["sha3-256", "SHA3256"],
+               "SHA3-512": ["sha3-512"], "SSDEEP": ["ssdeep"]}
+    if isinstance(x, dict):
+        h = x.get("hashes")
+        if isinstance(h, dict) and h:
+            for k in list(h):
+                if k in relaxed and rng.random() < 0.7:
+                    h[rng.choice(relaxed[k])] = h.pop(k)
+        if top:
+            for er in x.get("external_references", []) or []:
+                relax_hash_names(er, rng, top=False)
 
 
 def simple_obj(w, rng):
@@ -275,7 +293,7 @@ def make_kw(w, rng):
     ident = m.Identity(name="creator", identity_class="individual")
     tl = TLP20 if w.v == "2.0" else TLP21
     stmt = m.MarkingDefinition(definition_type="statement", definition=m.StatementMarking(statement="(c) x"))
-    er = [m.ExternalReference(source_name="capec", external_id="CAPEC-1"), {"source_name": "x", "url": "https://x.example/", "hashes": {"SHA-256": "aa" * 32}}]
+    er = [m.ExternalReference(source_name="capec", external_id="CAPEC-1"), {"source_name": "x", "url": "https://x.example/", "hashes": {rng.choice(["SHA-256", "sha256", "sha-256"]): "aa" * 32, rng.choice(["MD5", "md5"]): "aa" * 16}}]
     kw = {"name": "n", "created_by_ref": rng.choice([ident, ident.id]), "object_marking_refs": [tl["red"], stmt, tl["green"].id][:rng.choice([1, 2, 3])],
           "external_references": er[:rng.choice([1, 2])],
           "granular_markings": [m.GranularMarking(marking_ref=tl["amber"].id, selectors=["name"]), {"marking_ref": stmt.id, "selectors": ["external_references.[0].source_name"]}][:rng.choice([1, 2])]}
